@@ -190,6 +190,23 @@ fn mismatches(cx: &mut Cx, issuer: NodeId, holder: NodeId, key: Arc<KeyMat>, req
         let mut r = req.clone(); r.ct_value = r.ct_value.map(|x| x + 1u32);
         deliver_request(cx, issuer, key.clone(), r, "trusted_commitment_value:+1".into(), false);
     }
+    // the per-attribute sub-proof arrays shortened (last entry removed / emptied)
+    {
+        let v0 = parse(&req.zk_json);
+        for (name, path) in [("proofs_commited_mi", "/CL03/proofs_commited_mi"), ("range_proofs_mi", "/CL03/range_proofs_mi")] {
+            for how in ["last", "all"] {
+                let mut v = v0.clone();
+                if let Some(serde_json::Value::Array(a)) = v.pointer_mut(path) { if a.is_empty() { continue; } if how == "last" { a.pop(); } else { a.clear(); } } else { continue; }
+                let mut r = req.clone(); r.zk_json = v.to_string();
+                deliver_request(cx, issuer, key.clone(), r, format!("forged_subproof_array_shortened:{name}:{how}"), false);
+            }
+        }
+        // both arrays shortened consistently
+        let mut v = v0.clone();
+        let mut ok = true;
+        for path in ["/CL03/proofs_commited_mi", "/CL03/range_proofs_mi"] { if let Some(serde_json::Value::Array(a)) = v.pointer_mut(path) { if a.pop().is_none() { ok = false; } } }
+        if ok { let mut r = req.clone(); r.zk_json = v.to_string(); deliver_request(cx, issuer, key.clone(), r, "forged_subproof_array_shortened:both:last".into(), false); }
+    }
     // field-wise perturbation of the proof JSON (a slice of the leaves per run; the whole
     // proof over consecutive runs)
     let v = parse(&req.zk_json);
